@@ -118,6 +118,13 @@ theorem inv_step (key : Call → K) (eval : Call → V) (hkey : ∀ c c', key c 
         rcases hm with hm | hm
         · exact hr c' v' hm
         · cases hm; rfl
+  · -- lookCancelled: directory and results untouched, the worker stays idle
+    split at h <;> try (cases h; done)
+    cases h
+    refine ⟨hd, ?_, hr⟩
+    intro w hwm; rcases mem_set hwm with rfl | hm
+    · trivial
+    · exact hw w hm
 
 /-- **Cache soundness.**  Starting from any directory whose entries are sound (left by any number
     of earlier runs), with any number of workers, any assignment of calls (identical or different)
